@@ -525,3 +525,75 @@ Proof.
   - destruct (text_fully_escaped t ivs Hp) as [S [T _]]. split; assumption.
   - intros m I. exact (href_never_quoted t ivs m I).
 Qed.
+
+(* ------------------------------------------- the other direction: the text is recoverable *)
+
+Lemma esc_byte_no_cr : forall d, d <> 13 -> ~ In 13 (esc_byte esc_std d).
+Proof.
+  intros d Hd I. unfold esc_byte in I.
+  match type of I with context [match ?x with _ => _ end] => destruct x as [e|] eqn:A end.
+  - apply assoc_n_In in A.
+    assert (F : forallb (fun p => negb (mem_b 13 (snd p))) esc_std = true) by (vm_compute; reflexivity).
+    rewrite forallb_forall in F. specialize (F _ A). cbn [snd] in F. apply negb_true_iff in F.
+    apply (proj2 (mem_b_In 13 e)) in I. rewrite I in F. discriminate.
+  - destruct I as [I|[]]. apply Hd. exact I.
+Qed.
+
+Lemma esc_byte_head_not_lf : forall d, d <> 10 -> not_lf_head (esc_byte esc_std d).
+Proof.
+  intros d Hd. unfold esc_byte.
+  match goal with |- context [match ?x with _ => _ end] => destruct x as [e|] eqn:A end.
+  - apply assoc_n_In in A.
+    assert (F : forallb (fun p => match snd p with c :: _ => negb (c =? 10) | [] => true end) esc_std = true) by (vm_compute; reflexivity).
+    rewrite forallb_forall in F. specialize (F _ A). cbn [snd] in F.
+    destruct e as [|c e]; [exact I|]. cbn [not_lf_head]. apply negb_true_iff in F. apply N.eqb_neq. exact F.
+  - cbn [not_lf_head]. exact Hd.
+Qed.
+
+Lemma escape_cons : forall c r, escape_std (c :: r) = esc_byte esc_std c ++ escape_std r.
+Proof. reflexivity. Qed.
+
+Lemma normalise_escape_commute : forall t, normalise_nl (escape_std t) = escape_std (normalise_nl t).
+Proof.
+  apply two_step.
+  - reflexivity.
+  - intro c. destruct (c =? 13) eqn:E.
+    + apply N.eqb_eq in E. subst c. reflexivity.
+    + rewrite (normalise_cons_other c []) by exact E. rewrite escape_cons.
+      rewrite normalise_app_nocr by (apply esc_byte_no_cr; apply N.eqb_neq; exact E). reflexivity.
+  - intros c a s IH1 IH2. destruct (c =? 13) eqn:E.
+    + apply N.eqb_eq in E. subst c. destruct (a =? 10) eqn:E10.
+      * apply N.eqb_eq in E10. subst a.
+        change (escape_std (13 :: 10 :: s)) with (13 :: 10 :: escape_std s).
+        change (normalise_nl (13 :: 10 :: s)) with (10 :: normalise_nl s).
+        change (normalise_nl (13 :: 10 :: escape_std s)) with (10 :: normalise_nl (escape_std s)).
+        rewrite IH1. reflexivity.
+      * assert (Ha : a <> 10) by (apply N.eqb_neq; exact E10).
+        change (escape_std (13 :: a :: s)) with (13 :: escape_std (a :: s)).
+        assert (N1 : normalise_nl (13 :: a :: s) = 10 :: normalise_nl (a :: s)).
+        { cbn [normalise_nl]. change (13 =? 13) with true. cbv iota. rewrite E10. reflexivity. }
+        rewrite N1. change (escape_std (10 :: normalise_nl (a :: s))) with (10 :: escape_std (normalise_nl (a :: s))).
+        rewrite <- IH2.
+        pose proof (esc_byte_head_not_lf a Ha) as Hh. rewrite escape_cons in *.
+        destruct (esc_byte esc_std a) as [|h e] eqn:EB.
+        { exfalso. unfold esc_byte in EB.
+          match type of EB with context [match ?x with _ => _ end] => destruct x eqn:A end; [|discriminate].
+          apply assoc_n_In in A.
+          assert (F : forallb (fun p => negb (is_nil (snd p))) esc_std = true) by (vm_compute; reflexivity).
+          rewrite forallb_forall in F. specialize (F _ A). cbn [snd] in F. subst. discriminate. }
+        cbn [not_lf_head] in Hh. cbn [app normalise_nl]. change (13 =? 13) with true. cbv iota.
+        destruct (h =? 10) eqn:H10; [apply N.eqb_eq in H10; contradiction|]. reflexivity.
+    + rewrite (normalise_cons_other c (a :: s)) by exact E. rewrite !escape_cons.
+      rewrite normalise_app_nocr by (apply esc_byte_no_cr; apply N.eqb_neq; exact E).
+      rewrite <- escape_cons. rewrite IH2. rewrite <- escape_cons. reflexivity.
+Qed.
+
+(** BOTH DIRECTIONS: from the output alone the original text (line ends normalised to LF) is
+    recovered by removing the tags and decoding the five entities *)
+Theorem text_recoverable : forall (t : str) (ivs : list (N * N)),
+  matches_plain (escape_std t) ivs = true ->
+  unescape esc_std (strip_tags false (text_to_html t ivs)) = normalise_nl t.
+Proof.
+  intros t ivs Hp. destruct (text_fully_escaped t ivs Hp) as [S _]. rewrite S.
+  rewrite normalise_escape_commute. exact (proj1 (proj2 (proj2 escape_no_active_chars)) (normalise_nl t)).
+Qed.
